@@ -113,7 +113,19 @@ type Variant struct {
 	// one element of the request alphabet is repeated within one block.
 	MaxRequests     int
 	MaxSamePerBlock int
-	stats           *Stats
+	// ExtraProviders binds that many further providers (P2, P3, ...) to the seed service, so that the module
+	// has to choose whom to ask
+	ExtraProviders int
+	stats          *Stats
+}
+
+// providers lists the bound provider account names of the variant.
+func (v Variant) providers() []string {
+	ps := []string{provider}
+	for i := 0; i < v.ExtraProviders; i++ {
+		ps = append(ps, fmt.Sprintf("%s%d", provider, i+2))
+	}
+	return ps
 }
 
 // Stats are coverage counters of one exploration (reported in the evidence bounds).
@@ -171,8 +183,11 @@ func New(v Variant) func() (*mc.Env, mc.Driver) {
 	return func() (*mc.Env, mc.Driver) {
 		coins := sdk.NewCoins(mc.C("stake", 1_000_000_000))
 		opts := mc.EnvOptions{
-			Balances:     map[string]sdk.Coins{"A": coins, "B": coins, provider: coins},
+			Balances:     map[string]sdk.Coins{"A": coins, "B": coins},
 			BlockModules: []string{"random"},
+		}
+		for _, p := range v.providers() {
+			opts.Balances[p] = coins
 		}
 		if v.Service {
 			opts.BlockModules = []string{"service", "random"}
@@ -208,12 +223,15 @@ func (d *Driver) Init(e *mc.Env) *mc.State {
 		if !out.OK {
 			panic("fixture define: " + out.String())
 		}
-		out = s.Deliver(e, "fx-bind", &servicetypes.MsgBindService{
-			ServiceName: servicetypes.RandomServiceName, Provider: p, Deposit: sdk.NewCoins(mc.C("stake", 1_000_000)),
-			Pricing: fmt.Sprintf(`{"price":"%dstake"}`, priceStake), QoS: 1, Options: "{}", Owner: p,
-		})
-		if !out.OK {
-			panic("fixture bind: " + out.String())
+		for _, pn := range d.V.providers() {
+			pa := mc.Addr(pn).String()
+			out = s.Deliver(e, "fx-bind-"+pn, &servicetypes.MsgBindService{
+				ServiceName: servicetypes.RandomServiceName, Provider: pa, Deposit: sdk.NewCoins(mc.C("stake", 1_000_000)),
+				Pricing: fmt.Sprintf(`{"price":"%dstake"}`, priceStake), QoS: 1, Options: "{}", Owner: pa,
+			})
+			if !out.OK {
+				panic("fixture bind: " + out.String())
+			}
 		}
 	}
 	return s
@@ -225,14 +243,32 @@ func (d *Driver) activeSeedRequests(e *mc.Env, s *mc.State) map[string]string {
 	if !d.V.Service {
 		return out
 	}
-	res, err := e.Service.Requests(s.Ctx, &servicetypes.QueryRequestsRequest{ServiceName: servicetypes.RandomServiceName, Provider: mc.Addr(provider).String()})
-	if err != nil {
-		panic("service Requests query: " + err.Error())
-	}
-	for _, r := range res.Requests {
-		out[strings.ToUpper(r.RequestContextId)] = r.Id
+	for _, pn := range d.V.providers() {
+		res, err := e.Service.Requests(s.Ctx, &servicetypes.QueryRequestsRequest{ServiceName: servicetypes.RandomServiceName, Provider: mc.Addr(pn).String()})
+		if err != nil {
+			panic("service Requests query: " + err.Error())
+		}
+		for _, r := range res.Requests {
+			out[strings.ToUpper(r.RequestContextId)] = r.Id
+		}
 	}
 	return out
+}
+
+// providerOf names the provider a seed request was addressed to.
+func (d *Driver) providerOf(e *mc.Env, s *mc.State, svcID string) string {
+	for _, pn := range d.V.providers() {
+		res, err := e.Service.Requests(s.Ctx, &servicetypes.QueryRequestsRequest{ServiceName: servicetypes.RandomServiceName, Provider: mc.Addr(pn).String()})
+		if err != nil {
+			continue
+		}
+		for _, r := range res.Requests {
+			if r.Id == svcID {
+				return pn
+			}
+		}
+	}
+	return provider
 }
 
 func (d *Driver) Enabled(e *mc.Env, s *mc.State) []mc.Op {
@@ -512,7 +548,7 @@ func (d *Driver) Apply(e *mc.Env, s *mc.State, op mc.Op) []mc.Finding {
 	case "respond":
 		r := &m.reqs[od.idx]
 		who := r.Consumer
-		msg := &servicetypes.MsgRespondService{RequestId: od.svcID, Provider: mc.Addr(provider).String()}
+		msg := &servicetypes.MsgRespondService{RequestId: od.svcID, Provider: mc.Addr(d.providerOf(e, s, od.svcID)).String()}
 		switch od.rk {
 		case respSeed:
 			msg.Result = `{"code":200,"message":""}`
